@@ -27,9 +27,12 @@ EXPLANATION = (
     "term; both groups canonically sorted; result-shaped contraction adopts the requested order); R16d scaling "
     "(computational = contracted + target and memory = target per space and in total, the chosen scheme minimises "
     "(max, multiplicity of max) per field total/general/virt/occ, computational before memory, over the generated "
-    "candidates, never above the single simultaneous contraction; ScalingComponent orders by `total` first); "
+    "candidates, never above the single simultaneous contraction; ScalingComponent orders by `total` first; call "
+    "history: two or three Contractions constructed one after another on one path - class level and module level state "
+    "of the package is evaluated state - report the same, true scaling as each alone, in every order); "
     "R16e limits (no contraction of more than max_n_simultaneous_contracted objects, no intermediate above "
-    "max_itmd_dim, in any candidate scheme; RuntimeError when no scheme exists); R16f assembly (unique result names "
+    "max_itmd_dim, in any candidate scheme, including 5-6 object terms whose groups grow by several objects per step under "
+    "every limit 2..5; RuntimeError when no scheme exists); R16f assembly (unique result names "
     "recognised by is_contraction, every intermediate consumed exactly once, after it was produced, with its target "
     "indices; single final contraction; empty term -> []); R16g closure (no index is summed while another live object "
     "still carries it); R16h value (each scheme evaluated step by step on pseudo-random integer tensors of dimension 2 "
@@ -256,9 +259,8 @@ class Run:
         self.world = World()
         self.built = []          # every Contraction object that was constructed, in order
         self.counters = {}
-        self.clsattr = {}
         sx = Tracer(model, inline=lambda q: True, hooks=self.hooks(), what=what, max_depth=40, max_paths=4,
-                    max_steps=3000000, attr_hook=self.attr_hook)
+                    max_steps=3000000, obj_identity=True)
         sx.yielded = []
         self.sx = sx
 
@@ -273,18 +275,6 @@ class Run:
                 if dataclass_info(c) is not None:
                     h[q] = (lambda sx, a, kw, c=c, mod=mod, q=q: self.h_dataclass(mod, q, c, a, kw))
         return h
-
-    def attr_hook(self, sx, obj, attr, node):
-        # attribute of an instance that lives on the class
-        if isinstance(obj, Obj) and obj.cls and ":" in obj.cls:
-            mod, _, q = obj.cls.partition(":")
-            m = self.model.modules.get(mod)
-            if m is not None and q in m.classes:
-                k = (obj.cls, attr)
-                if k not in self.clsattr:
-                    self.clsattr[k] = sx.getattr(ClassRef(m, q), attr, node)
-                return self.clsattr[k]
-        return NotImplemented
 
     def h_count(self, sx, a, kw):
         start = a[0] if a else kw.get("start", 0)
@@ -719,12 +709,40 @@ QUICK = [
     S("rank memory breaks the tie four", [("A", "icab"), ("B", "c"), ("C", "i"), ("D", "ab")]),
     S("doubled pair first n 3", [("B", "jk", 2), ("A", "ij"), ("C", "ik")], max_n=3),
     S("rank four", [("A", "aj"), ("B", "bj"), ("C", "qa"), ("D", "qb")]),
+    S("elementwise after a contraction of the same spaces", [("A", "il"), ("B", "jl"), ("C", "ij")], target="ij"),
     S("n 2", [("f", "ij"), ("t1", "ja"), ("Y", "ab"), ("Z", "bk")], max_n=2),
     S("single", [("V", "ijab")]),
     S("single permuted", [("V", "ijab")], target="abij"),
     S("single trace", [("V", "ijij")]),
     S("single delta", [("delta", "ij")]),
 ]
+
+# terms in which a group of the search grows by more than one object per step (a summed index carried by m objects
+# needs a contraction of at least m objects); every limit 2..5 is tried: (label, objects, target, {limit: a scheme exists})
+LIMIT_FAMILY = [
+    ("hub of four", [("A", "ij"), ("B", "i"), ("C", "ija"), ("D", "jb"), ("F", "jc")], "abc",
+     {2: False, 3: False, 4: True, 5: True}, "quick"),                       # j is summed over 4 objects
+    ("hub of four + spectator", [("A", "ij"), ("B", "i"), ("C", "ija"), ("D", "jb"), ("F", "jc"), ("G", "kd")], "abcdk",
+     {2: False, 3: False, 4: True, 5: True}, "quick"),
+    ("hub of five", [("P", "ab"), ("Q", "a"), ("R", "abi"), ("S", "bj"), ("T", "bk"), ("U", "bl")], "ijkl",
+     {2: False, 3: False, 4: False, 5: True}, "quick"),                      # b is summed over 5 objects
+    ("two hubs of three", [("A", "ia"), ("B", "ib"), ("C", "ab"), ("D", "bc"), ("E", "c"), ("F", "cd")], "d",
+     {2: False, 3: True, 4: True, 5: True}, "thorough"),
+    ("tail of three", [("A", "ij"), ("B", "ik"), ("C", "jl"), ("D", "klm"), ("E", "lm"), ("F", "m")], "",
+     {2: False, 3: True, 4: True, 5: True}, "thorough"),
+]
+
+
+def limit_family(tier):
+    feasible, impossible = [], []
+    for label, objs, target, table, t in LIMIT_FAMILY:
+        if t == "thorough" and tier != "thorough":
+            continue
+        feasible.append(S(f"{label}", objs, target=target))
+        for n, ok in sorted(table.items()):
+            (feasible if ok else impossible).append(S(f"{label} n {n}", objs, target=target, max_n=n))
+    return feasible, impossible
+
 
 REFUSED = [
     S("division", [("V", "ijab"), ("t2", "abij", -1)]),
@@ -824,7 +842,7 @@ FUNCS = ("optimize_contractions", "unoptimized_contraction")
 
 
 def specs(ctx):
-    return QUICK + (THOROUGH if ctx.tier == "thorough" else [])
+    return QUICK + limit_family(ctx.tier)[0] + (THOROUGH if ctx.tier == "thorough" else [])
 
 
 def applicable(spec, fname):
@@ -984,6 +1002,7 @@ def r16d(ctx):
         ctx.check(rule, cls, ok, f"{cname}: ordered record, `{first}` compared first",
                   f"{cname}: instances must be ordered with `{first}` as most significant field and carry the fields "
                   f"{(first, *rest)}; found {info}", key=f"{cname} order")
+    r16d_history(ctx)
     # term_memory_requirements: the largest object of the term by total number of indices
     fn = ctx.model.fn(CO + "term_memory_requirements")
     for label, spaces, want in (("total first", ("ggg", "oovv", "ov"), "oovv"), ("then general", ("ovv", "gov", "oov"), "gov"),
@@ -1000,13 +1019,84 @@ def r16d(ctx):
                   f"largest object {exp}", key=f"memory requirements {label}")
 
 
+# contractions whose scaling must not depend on what was built before: (label, operands, term targets)
+HISTORY = [
+    ("A_ikac B_jkbc -> ijab", [("A", "ikac"), ("B", "jkbc")], "ijab"),
+    ("W_ijab D_ijab -> ijab", [("W", "ijab"), ("D", "ijab")], "ijab"),          # same spaces as the first, nothing summed
+    ("A_il B_jl -> ij", [("A", "il"), ("B", "jl")], "ij"),
+    ("X_ij C_ij -> ij", [("X", "ij"), ("C", "ij")], "ij"),                      # same spaces as the third
+    ("X_ij C_ij -> scalar", [("X", "ij"), ("C", "ij")], ""),                    # same operands, other term targets
+    ("V_ijab t_ab -> ij", [("V", "ijab"), ("t", "ab")], "ij"),
+    ("V_ijab t_cd -> ijabcd", [("V", "ijab"), ("t", "cd")], "ijabcd"),          # same operand spaces, outer product
+    ("h_pq D_qp -> scalar", [("h", "pq"), ("D", "qp")], ""),
+]
+
+
+def history_run(ctx, seq):
+    """The contractions `seq` (indices into HISTORY) constructed one after another in one process -> scaling of each."""
+    run = Run(ctx.model, "Contraction history " + " ; ".join(HISTORY[k][0] for k in seq))
+    init = run.sx.find_method(CLS, "__init__")
+    if init is None:
+        raise AnalysisError("C16: Contraction.__init__ not found")
+    objs = []
+
+    def args_list():
+        out = []
+        for n, k in enumerate(seq):
+            _, ops, tg = HISTORY[k]
+            o = Obj(CLS, f"Contraction#{n}")
+            objs.append(o)
+            out.append(dict(self=o, indices=tuple(tuple(run.world.indices(ix)) for _, ix in ops),
+                            names=tuple(nm for nm, _ in ops), term_target_indices=tuple(run.world.indices(tg))))
+        return out
+    outs = run.sx.run_sequence([init[0]] * len(seq), args_list)
+    if len(outs) != 1:
+        raise AnalysisError(f"C16({run.what}): the evaluation depends on something outside the modelled vocabulary")
+    res = []
+    for (kind, v), o in zip(outs[0].value, objs[-len(seq):]):
+        if kind != "return":
+            res.append(("raise", v))
+            continue
+        try:
+            r = Rec(run.world, o)
+            res.append(("scaling", r.scaling, ref_scaling(r.contracted, r.target)))
+        except Malformed as e:
+            res.append(("malformed", e.msg))
+    return res
+
+
+def r16d_history(ctx):
+    """The scaling a contraction reports is a function of that contraction alone: whatever contractions were built
+    before it in the same process (class level / module level state), it reports its true scaling."""
+    rule = "R16d"
+    fn = ctx.model.fn(CLS + ".__init__")
+    n = len(HISTORY)
+    seqs = [(a,) for a in range(n)] + [(a, b) for a in range(n) for b in range(n) if a != b]
+    seqs += [(a, b, c) for a, b, c in itertools.permutations(range(4), 3)] + [(0, 1, 0), (2, 3, 2), (3, 4, 3)]
+    m = 0
+    for seq in seqs:
+        res = history_run(ctx, seq)
+        bad = []
+        for pos, (k, r) in enumerate(zip(seq, res)):
+            if r[0] != "scaling":
+                bad.append(f"{HISTORY[k][0]} (built as number {pos + 1}): {r[0]} {r[1]}")
+            elif r[1] != r[2]:
+                bad.append(f"{HISTORY[k][0]} (built as number {pos + 1}) reports {r[1]}, its true scaling is {r[2]}")
+        m += 1
+        hist = " ; ".join(HISTORY[k][0] for k in seq)
+        ctx.check(rule, fn, not bad, f"history [{hist}]: every contraction reports its own scaling",
+                  f"contractions built one after another in one process [{hist}]: " + "; ".join(bad) +
+                  " - the reported scaling must not depend on the contractions built before", key=f"history {seq}")
+    floor(ctx, rule, "construction histories", m, 50)
+
+
 def r16e(ctx):
     rule = "R16e"
     _rule_over_scenarios(ctx, rule, "limits on simultaneously contracted objects and intermediate dimension respected", 30)
     n = sum(1 for _, spec, _ in each(ctx) if spec.max_dim is not None or spec.max_n is not None)
     floor(ctx, rule, "scenarios with limits", n, 4)
     fn = ctx.model.fn(OC + "optimize_contractions")
-    for spec in IMPOSSIBLE:
+    for spec in IMPOSSIBLE + limit_family(ctx.tier)[1]:
         ev = evaluated(ctx, spec, "optimize_contractions")
         ok = ev.error is None and ev.kind == "raise" and ev.value == "RuntimeError"
         got = f"raises {ev.value}" if ev.kind == "raise" else "returns " + (
